@@ -625,7 +625,7 @@ theorem isLazyVM_eq {fo : FnObj} (hu : fo.user = false) (j : Nat) : isLazyVM (so
   · have : fo.isLazyCallArg j = false := by simpa using hj
     rw [this, Bool.and_false]
 
-theorem simT_selfcall {k : Nat} (hV : TClaimV (k + 1)) (hA : FClaimA (k + 1)) (hU : FClaimU (k + 1)) (hG : FClaimG k)
+theorem simT_selfcall {k : Nat} (hV : TClaimV (k + 1)) (hA : FClaimA (k + 1)) (hU : FClaimU (k + 1)) (hG : ∀ name, hoB name → FClaimH k name)
     {self h : String} {args : List Expr} (hh : (h != "") = true) (hhead : okHead h = true) (hfa : FaList args = true)
     (hself : (h != self) = true ∨ FfList false self args = true)
     (isFn : Nat → Bool) (c : Ctx) (gs : GS) (r : (List Instr × Bool) × GS)
@@ -1079,7 +1079,7 @@ theorem tclaimC_succ {n : Nat} (hFE : FClaimE n) (hE : TClaimE n) (hC : TClaimC 
     | cont l rs1 => rw [h1] at ih; exact ih.elim
 
 theorem tclaimE_succ {n : Nat} (hFE1 : FClaimE (n + 1)) (hXE1 : XClaimE (n + 1)) (hV : TClaimV n) (hA : FClaimA n)
-    (hU : FClaimU n) (hG : ∀ k, n = k + 1 → FClaimG k) (hL : FClaimL n) (hP : FClaimP n) (hB : TClaimB n) (hC : TClaimC n)
+    (hU : FClaimU n) (hG : ∀ k, n = k + 1 → ∀ name, hoB name → FClaimH k name) (hL : FClaimL n) (hP : FClaimP n) (hB : TClaimB n) (hC : TClaimC n)
     (hN : TClaimN n) : TClaimE (n + 1) := by
   intro ex self e he isFn c gs r hc hfn hex ps rest hkn hps m₁ s₁ rs₁ env vid D f₀ m s rs cenv pre post hact hna hva hrel hgen hlo hseg
   have hff : Ff true self e = true → SimT r.1.1 s₁ env D f₀ m s rs cenv (Ref.eval (n + 1) e cenv rs) := fun h =>
